@@ -46,8 +46,8 @@ def run(ctx):
                        'a map with unique keys is linearizable iff every per-key sub-history is (P-compositionality)',
                        'the same item re-inserted under the same key is not distinguished by generation (can only make the oracle more permissive)',
                        'resizes counted as growth of rw_hash->nb_bits; table generations as the length of the next chain at quiescence']
-    nh = 12000 if thorough else 150
-    rounds = 400000 if thorough else 12000
+    nh = 2000 if thorough else 100
+    rounds = 100000 if thorough else 6000
     jobs = []
     n = 0
     for flavour in ('asan', 'rel'):
@@ -62,7 +62,7 @@ def run(ctx):
                                  cmd=[e, '--mode', 'hist', '--threads', t, '--ops', ops, '--histories', max(20, k), '--seed', ctx.seed * 1000 + n, '--yield', y[0], '--yield-us', y[1]]))
         # waves: all threads fill a fresh table through its generations, then all drain it at once (traffic on the older tables);
         # plus epochs of random mixed operations
-        wave_epochs = 30000 if thorough else 250
+        wave_epochs = 4000 if thorough else 250
         for (t, keys, hint, hm, y, rnds, eps) in ((8, 128, 16, 0, 0, 0, wave_epochs), (16, 64, 16, 0, 0, 0, wave_epochs), (8, 128, 2, 0, 0, 0, wave_epochs // 2),
                                                   (4, 256, 16, 0, 100, 0, wave_epochs // 2), (8, 64, 16, 5, 0, 0, wave_epochs // 2), (3, 100, 1, 0, 300, 0, wave_epochs // 2),
                                                   (8, 128, 1, 0, 0, rounds, 4), (16, 64, 2, 0, 100, rounds, 4), (4, 256, 1, 13, 200, rounds, 4)):
